@@ -213,3 +213,32 @@ Example upload_not_cut_nonvacuous :
   let s := fold_left (fun st e => fst (upstep true st e)) [UData 100 false; UForward; UShutdownPass] (mkup false 0 false) in
   terminated s = false /\ upstep true s (UData 9 true) = (mkup true 9 true, UOk).
 Proof. vm_compute. split; reflexivity. Qed.
+
+(** 8. Shutdown polls.  [shutting_down] reads the client outside the ready
+    loop; an edge-triggered epoll reports nothing for bytes already taken from
+    the socket.  With the repair (the poll writes out what it armed on the
+    backends) nothing the client sent ever stays queued behind an armed but
+    unserved backend, whatever the interleaving of arrivals, polls and epoll
+    turns.  [shutdown_poll_strands_before_fix]: without it, a request whose
+    last DATA is taken by a poll waits for ever (in practice for the shutdown
+    deadline) - the black-box graceful_shutdown phase of c15bb saw exactly
+    that under load (4 s without an answer, then the forced close). *)
+Theorem shutdown_poll_serves_what_it_arms :
+  forall evs,
+    let s := fold_left (sdstep true) evs (mksd 0 0 false) in
+    sd_queued s = 0 /\ sd_armed s = false.
+Proof. intros evs. apply sdrun_serves; reflexivity. Qed.
+
+Example shutdown_poll_strands_before_fix :
+  let s := fold_left (sdstep false) [SdArrive 9; SdPoll] (mksd 0 0 false) in
+  s = mksd 0 9 true /\
+  forall evs, (forall e, In e evs -> e = SdPoll \/ e = SdEpoll) -> fold_left (sdstep false) evs s = s.
+Proof.
+  split; [vm_compute; reflexivity|]. intros evs H. apply sd_stuck; [reflexivity|discriminate|exact H].
+Qed.
+
+Example shutdown_poll_serves_nonvacuous :
+  fold_left (sdstep true) [SdArrive 9; SdPoll; SdEpoll; SdArrive 4; SdEpoll] (mksd 0 0 false) = mksd 0 0 false /\
+  fold_left (sdstep true) [SdArrive 9] (mksd 0 0 false) = mksd 9 0 false.
+Proof. vm_compute. split; reflexivity. Qed.
+
